@@ -49,6 +49,9 @@ pub const TOKENS: &[&[u8]] = &[
     b"@@ -18446744073709551616,1 +1 @@\n",
     b"@@ -9223372036854775808 +9223372036854775808 @@\n",
     b"@@ -1,1000000 +1,1000000 @@\n",
+    b"@@ -4611686018427387903,0 +4611686018427387903 @@\n",
+    b"@@ -9223372036854775807,0 +1 @@\n",
+    b"@@ -72057594037927936,2 +72057594037927936,2 @@\n",
     b"@@ - invalid\n",
     b"+x\n",
     b"-x\n",
@@ -70,7 +73,8 @@ pub const TOKENS: &[&[u8]] = &[
 
 const EXTREMES: &[&str] = &[
     "0", "1", "2", "7", "1000", "65536", "1000000", "2147483648", "4294967295", "4294967296", "9223372036854775807", "9223372036854775808", "18446744073709551615",
-    "18446744073709551616", "1000000000000000000000000000000", "999999999999", "12345678",
+    "18446744073709551616", "1000000000000000000000000000000", "999999999999", "12345678", "4611686018427387903", "4611686018427387904", "72057594037927936", "1152921504606846976",
+    "281474976710656",
 ];
 
 fn seeds() -> &'static Vec<Vec<u8>> {
@@ -129,6 +133,19 @@ fn header_number_spans(d: &[u8]) -> Vec<(usize, usize)> {
     }
     out
 }
+
+/// patches written against the files of the CLI fixture (f: a,b,c,d,e; src/f.c: a,b,c), so that context
+/// really matches and the failure diagnostics have something to chew on
+const FIXTURE_PATCHES: &[&[u8]] = &[
+    b"--- a/f\n+++ b/f\n@@ -1,3 +1,3 @@\n a\n-b\n+B\n c\n",
+    b"--- a/f\n+++ b/f\n@@ -1,3 +1,3 @@\n a\n-X\n+B\n c\n",
+    b"--- a/f\n+++ b/f\n@@ -2,3 +2,4 @@\n b\n-X\n+C\n+C2\n d\n@@ -4,2 +5,2 @@\n d\n-e\n+E\n",
+    b"--- a/f\n+++ b/f\n@@ -3,3 +3,2 @@\n c\n-Y\n e\n",
+    b"--- a/f\n+++ b/f\n@@ -4,2 +4,3 @@\n d\n e\n+f\n",
+    b"--- a/src/f.c\n+++ b/src/f.c\n@@ -1,3 +1,3 @@\n a\n-q\n+B\n c\n--- a/f\n+++ b/f\n@@ -1,2 +1,2 @@\n-a\n+A\n b\n",
+    b"diff --git a/f b/g\nsimilarity index 80%\nrename from f\nrename to g\n--- a/f\n+++ b/g\n@@ -1,3 +1,3 @@\n a\n-Z\n+B\n c\n",
+    b"--- a/f\n+++ b/f\n@@ -2,0 +3,1 @@\n+new\n@@ -5,1 +6,0 @@\n-E\n",
+];
 
 fn gen_valid_patch(ch: &mut Chooser) -> Vec<u8> {
     let alpha = gen_alphabet(ch);
@@ -213,6 +230,23 @@ fn mutate(ch: &mut Chooser, mut d: Vec<u8>) -> Vec<u8> {
     d
 }
 
+const GIT_TOKENS: &[&[u8]] = &[
+    b"rename from f\n",
+    b"rename to g\n",
+    b"rename from src/f.c\n",
+    b"rename to h\n",
+    b"copy from f\n",
+    b"copy to g\n",
+    b"similarity index 90%\n",
+    b"old mode 100644\n",
+    b"new mode 100755\n",
+    b"new file mode 100644\n",
+    b"deleted file mode 100644\n",
+    b"index 1234567..89abcde 100644\n",
+    b"index 1234567..89abcde\n",
+    b"GIT binary patch\n",
+];
+
 const SERIES_TOKENS: &[&str] = &[
     "p.patch", "p.patch -p1", "p.patch -p0", "p.patch -p 1", "p.patch --strip=1", "p.patch --strip 2", "p.patch -R", "p.patch -R -p1", "p.patch -p1 -R", "p.patch -Rp1", "p.patch -p4000000000",
     "p.patch -p18446744073709551615", "p.patch -p18446744073709551616", "p.patch -p-1", "p.patch -px", "p.patch -p", "p.patch --bogus", "p.patch -E", "# comment", "", "   ", "\tp.patch", " p.patch",
@@ -237,6 +271,17 @@ impl C11 {
             let _ = maxreq;
             if peak > (256 * data.len() + 256 * 1024) as i64 {
                 return Err(format!("parser held {} bytes live for a {}-byte input (bound 256*len+256KiB)", peak, data.len()));
+            }
+            if strip == 0 {
+                if let inproc::Parsed::Ok(v) = &r {
+                    if !v.is_empty() {
+                        // the parsed patch must also be applicable (or fail) without a crash
+                        if let Err(m) = inproc::apply_smoke(data) {
+                            return Err(m);
+                        }
+                        cx.evals += 1;
+                    }
+                }
             }
             match r {
                 inproc::Parsed::Panic(m) => return Err(format!("parser panicked (strip {}): {}", strip, m)),
@@ -303,7 +348,7 @@ impl Prop for C11 {
     }
 
     fn build(&self, ch: &mut Chooser, _cx: &mut CaseCtx) -> Case {
-        let kind = ch.weighted(&[2, 4, 5, 4, 1]);
+        let kind = ch.weighted(&[2, 4, 5, 4, 1, 3, 3]);
         let (data, origin): (Vec<u8>, &str) = match kind {
             0 => {
                 let n = ch.below(200);
@@ -331,6 +376,32 @@ impl Prop for C11 {
                 let p = gen_valid_patch(ch);
                 (mutate(ch, p), "mutated-generated")
             }
+            6 => {
+                let base = FIXTURE_PATCHES[ch.below(FIXTURE_PATCHES.len())].to_vec();
+                (mutate(ch, base), "mutated-fixture-patch")
+            }
+            5 => {
+                // git-style entries with unusual (legal and illegal) combinations of extended headers
+                let mut d = Vec::new();
+                let nent = ch.range(1, 2);
+                for _ in 0..nent {
+                    let (a, b) = (*ch.pick(&["f", "src/f.c", "g"]), *ch.pick(&["f", "src/f.c", "g", "h"]));
+                    d.extend_from_slice(format!("diff --git a/{} b/{}\n", a, b).as_bytes());
+                    let nm = ch.below(5);
+                    for _ in 0..nm {
+                        d.extend_from_slice(GIT_TOKENS[ch.below(GIT_TOKENS.len())]);
+                    }
+                    if ch.chance(3, 4) {
+                        let o = *ch.pick(&["a/f", "a/src/f.c", "/dev/null", "a/g"]);
+                        let n = *ch.pick(&["b/f", "b/src/f.c", "/dev/null", "b/h"]);
+                        d.extend_from_slice(format!("--- {}\n+++ {}\n", o, n).as_bytes());
+                        if ch.chance(3, 4) {
+                            d.extend_from_slice(*ch.pick(&[&b"@@ -1,3 +1,3 @@\n a\n-b\n+B\n c\n"[..], &b"@@ -0,0 +1,2 @@\n+x\n+y\n"[..], &b"@@ -1,3 +0,0 @@\n-a\n-b\n-c\n"[..], &b"@@ -1,5 +0,0 @@\n-a\n-b\n-c\n-d\n-e\n"[..]]));
+                        }
+                    }
+                }
+                (d, "git-soup")
+            }
             _ => {
                 let n = ch.range(1, 5);
                 let mut d = Vec::new();
@@ -345,13 +416,13 @@ impl Prop for C11 {
         };
         let mode = if kind == 4 {
             Mode::CliSeries
-        } else if ch.chance(1, 12) {
+        } else if kind == 5 || kind == 6 || ch.chance(1, 12) {
             Mode::CliPatch
         } else {
             Mode::Parse
         };
         let threads = *ch.pick(&[1usize, 1, 2]);
-        let verbosity = ch.pick(&["", "-q", "-v"]).to_string();
+        let verbosity = ch.pick(&["", "", "-q", "-v"]).to_string();
         Case { mode, data: B(data), origin: origin.into(), threads, verbosity }
     }
 
@@ -362,7 +433,9 @@ impl Prop for C11 {
         }
         if case.mode != Mode::CliSeries {
             cx.env.note_case(case);
-            if let Err(m) = self.check_parse(&case.data, cx) {
+            let r = self.check_parse(&case.data, cx);
+            cx.env.case_done();
+            if let Err(m) = r {
                 return Verdict::Fail(m);
             }
         }
